@@ -358,4 +358,56 @@ theorem sameSizes_toLay : ∀ (fs : List (String × CGen.Ty)) (ts : List Ty), to
         subst h
         exact ⟨ssize_toLay tc a h1, sameSizes_toLay r b h2⟩
 
+
+mutual
+/-- both models size EVERY type alike - references included (a reference slot is 8 bytes, a union reference 16) -/
+theorem ssize_toLayR : ∀ (tc : CGen.Ty), CGen.Ty.ssize tc = (toLayR tc).ssize
+ | .scalar s => by simp [toLayR, CGen.Ty.ssize, Ty.ssize]
+ | .string => by simp [toLayR, CGen.Ty.ssize, Ty.ssize]
+ | .struct _ fs => by
+    simp only [toLayR, CGen.Ty.ssize, Ty.ssize]
+    exact ssize_toLayRFields fs
+ | .array it sh ord => by
+    simp only [toLayR, CGen.Ty.ssize, Ty.ssize, ← ssize_toLayR it, mapM_id_allStatic]
+    cases CGen.Ty.ssize it <;> cases allStatic sh <;> simp [foldl_mul_prod, cgen_slot]
+ | .ref _ => by simp [toLayR, CGen.Ty.ssize, Ty.ssize]
+ | .unionref _ _ => by simp [toLayR, CGen.Ty.ssize, Ty.ssize]
+theorem ssize_toLayRFields : ∀ (fs : List (String × CGen.Ty)), CGen.fieldsSize fs = ssizeFields (toLayRFields fs)
+ | [] => rfl
+ | (n, tc) :: r => by
+    simp only [CGen.fieldsSize, toLayRFields, ssizeFields, ← ssize_toLayR tc, ← ssize_toLayRFields r, cgen_slot]
+    cases CGen.Ty.ssize tc <;> cases CGen.fieldsSize r <;> rfl
+end
+
+mutual
+/-- on reference-free types the two translations agree -/
+theorem toLayR_of_toLay : ∀ (tc : CGen.Ty) (t : Ty), toLay tc = some t → toLayR tc = t
+ | .scalar s, t, h => by simp only [toLay, Option.some.injEq] at h; subst h; rfl
+ | .string, t, h => by simp only [toLay, Option.some.injEq] at h; subst h; rfl
+ | .struct _ fs, t, h => by
+    simp only [toLay, Option.map_eq_some_iff] at h
+    obtain ⟨ts, hts, rfl⟩ := h
+    simp only [toLayR, toLayRFields_of_toLayFields fs ts hts]
+ | .array it sh ord, t, h => by
+    simp only [toLay, Option.map_eq_some_iff] at h
+    obtain ⟨i, hi, rfl⟩ := h
+    simp only [toLayR, toLayR_of_toLay it i hi]
+ | .ref _, _, h => by simp [toLay] at h
+ | .unionref _ _, _, h => by simp [toLay] at h
+theorem toLayRFields_of_toLayFields : ∀ (fs : List (String × CGen.Ty)) (ts : List Ty), toLayFields fs = some ts →
+    toLayRFields fs = ts
+ | [], ts, h => by simp only [toLayFields, Option.some.injEq] at h; subst h; rfl
+ | (n, tc) :: r, ts, h => by
+    simp only [toLayFields] at h
+    cases h1 : toLay tc with
+    | none => simp [h1] at h
+    | some a =>
+      cases h2 : toLayFields r with
+      | none => simp [h1, h2] at h
+      | some b =>
+        simp only [h1, h2, Option.some.injEq] at h
+        subst h
+        simp only [toLayRFields, toLayR_of_toLay tc a h1, toLayRFields_of_toLayFields r b h2]
+end
+
 end Lay
